@@ -88,8 +88,10 @@ def first_enum_item(b):
             r = first_enum_item(it)
             if r:
                 return r
-        elif it.shape.startswith("enum:") and it.kind == "attr" and it.tokens[1].kind == "enum":
-            return (b, it)
+        elif it.shape.startswith("enum:") and it.kind == "attr" and it.tokens[1].kind == "enum" \
+                and it.key not in docs.object_types() \
+                and all(x.shape.startswith("enum:") for x in docs.slot_items(b.type) if x.key == it.key):
+            return (b, it)          # a keyword whose ONLY alternatives are enumerated words: any other word is a fault
     return None
 
 
